@@ -511,7 +511,7 @@ def run_history(case):
                 if op.get("leave") and starts:
                     rd0 = starts[0].get("report_dir")
                     if isinstance(rd0, str) and os.path.isdir(rd0) and os.path.realpath(rd0) == os.path.realpath(os.path.join(top, "report")) \
-                            and os.listdir(rd0):
+                            and os.listdir(rd0) and explicit_target(op) is None:
                         plant(rd0, op["leave"])
                 st = scan(top, ext, tracker)
                 st["outcome"] = outcome
@@ -677,8 +677,29 @@ def to_model_ops(case):
         lim = effective_limit(case, op)
         impl = "default" if (not case["project"]["override"] or op["limit"] == "default") else {"limit": lim}
         out.append({"op": "run", "cli": op["cli"], "env": op["env"], "impl": impl, "writes": writes(op), "fate": fate(op),
-                    "files": files_of(op)})
+                    "files": files_of(op), "tree": tree_of(op)})
     return out
+
+
+FILE_OF_KIND = {v: k for k, v in KIND_OF_FILE.items()}
+
+
+def tree_of(op):
+    """everything a COMPLETED run at the default location leaves in its directory, as [relative path, kind] (the backends' files by
+    their names; the attachment under the name the test chose — stored as attachments/0001_<name>; what is planted after the run).
+    Empty exactly when `files_of(op)` is: the tree level and the kind level see the same `writes`."""
+    kinds = files_of(op)
+    if not kinds:
+        return []
+    tree = [[FILE_OF_KIND[k], "file"] for k in kinds if k != "attachments"]
+    if op.get("attach"):
+        tree.append(["attachments/0001_" + (op["attach"] if isinstance(op["attach"], str) else "note.txt"), "file"])
+    if explicit_target(op) is None:
+        tree += [[rel, LEFTOVERS[rel][0]] for rel in op.get("leave", [])]
+    return tree
+
+
+TRACKED_PATHS = set(LEFTOVERS) | {"attachments/0001_" + n for n in ATTACH_NAMES + ["note.txt"]} | {k for k in KIND_OF_FILE if k != "attachments"}
 
 
 def compare(case, obs, ans):
@@ -693,6 +714,11 @@ def compare(case, obs, ans):
         mine = {x: o[x] for x in ("current", "arch", "filled", "other")}
         if "content" in m:
             mine["content"] = o["content"]
+        if "tree" in m:
+            # tree level: which directory holds which of the tracked entries (backends' files, the attachment under its chosen name, planted
+            # leftovers), after every operation
+            mine["tree"] = sorted([int(key[2:]), sorted(p for p, _ in fp if p in TRACKED_PATHS)] for key, fp in o["prints"].items() if key.startswith("fs"))
+            m = dict(m, tree=sorted([i, sorted(p for p in paths if p in TRACKED_PATHS)] for i, paths in m["tree"]))
         if m != mine:
             return f"op {k} ({case['ops'][k]}): model {m} vs impl {mine}"
     return None
